@@ -66,6 +66,7 @@ func init() {
 	extendProp("C20", "(R20.10) the conversion functions contain no delete() on an object's annotations or labels (the ObjectMeta copy is shallow: source and destination share the maps); (R20.11) where source and destination have an optional scalar of the same name and type (pause.duration, …) the destination gets the source's pointer, not a value rebuilt from it.", r8C20)
 	extendProp("C08", "(R8.13) the error of fetchMatchedRollout is propagated by every admission handler (error discipline of R6.1 applied to the workload webhook); (R8.14) UnifiedWorkloadHandler.Handle returns a bare Allowed before handleStatefulSetLikeWorkload only when the workload-type label is not 'statefulset' AND the kind is not StatefulSet.", r8C08)
 	extendProp("C12", "(R12.12) PatchPodBatchLabel returns nil without running patchPodBatchLabel only for an empty rollout-id or an empty pod list.", r8C12)
+	extendProp("C17", "(R17.14) SetDefaultDeploymentStrategy is called by the writers of the strategy annotation only, never from the Deployment controller package, which reads the stored strategy as it is.", r8C17)
 	extendProp("C08", "(R8.10) both admission handlers answer 'this workload is not selected by the webhook configuration' only after every entry and rule was examined (or the entry's selector cannot be parsed): the first entry whose rule matches does not decide alone.", r6C08)
 }
 
@@ -2249,4 +2250,22 @@ func r8C12(c *Ctx) {
 	reach, at := CanReach(Entry(fn), successReturn(fn), ReachOpts{CutInstr: does, CutEdge: func(b *ssa.BasicBlock, k int) bool { return EdgeFactMatches(b, k, nothing) }})
 	c.Ob("R12.12", "PatchPodBatchLabel#always-runs-the-accounting", fn.Pos(), n > 0 && !reach, "nil is returned without the per-pod accounting only for an empty rollout-id or an empty pod list",
 		ifs(reach, "the return at "+p.Pos(posOf(at))+" skips the pass on another condition: a shortcut that counts pods by rollout-id alone also counts the ones the accounting deliberately does not (old revision, non-numeric or out-of-range batch-id), so the pods the batch really added never get their label")+ifs(n == 0, "call of patchPodBatchLabel not found"))
+}
+
+// ---------------------------------------------------------------- C17 R17.14 (round 8)
+
+func r8C17(c *Ctx) {
+	p := c.Prog
+	c.Rule("R17.14", "the Deployment controller rolls with the strategy as stored: defaults are applied where the annotation is written", 2)
+	def := p.Func("api/v1alpha1.SetDefaultDeploymentStrategy")
+	if def == nil {
+		c.Unresolved("R17.14", "v1alpha1.SetDefaultDeploymentStrategy")
+		return
+	}
+	for _, cs := range p.Callers(def) {
+		name := FuncName(cs.Caller)
+		ok := !strings.HasPrefix(name, "pkg/controller/deployment")
+		c.Ob("R17.14", name+"#SetDefaultDeploymentStrategy", cs.Instr.Pos(), ok, "defaults are applied by a writer of the strategy annotation (webhook, Initialize)",
+			ifs(!ok, "the controller re-defaults the strategy it has just read: whatever the defaulting does to a partly specified rollingUpdate (today it overwrites maxUnavailable when maxSurge is absent) then governs the scaling instead of the stored values"))
+	}
 }
